@@ -34,7 +34,7 @@ type Case struct {
 	AllCutSets  bool      `json:"all_cut_sets,omitempty"` // run every cut set of the stream (stream must be short)
 }
 
-var framingNames = []string{"line", "split1e", "split00", "splitsp", "hdr", "hdrbin", "strict", "stricttp", "lsp", "rawjson", "direct"}
+var framingNames = []string{"line", "split1e", "split00", "splitsp", "splitff", "split80", "splitc2", "hdr", "hdrbin", "strict", "stricttp", "lsp", "rawjson", "direct"}
 
 func framingOf(name string) (channel.Framing, byte, bool) {
 	switch name {
@@ -46,6 +46,12 @@ func framingOf(name string) (channel.Framing, byte, bool) {
 		return channel.Split(0), 0, true
 	case "splitsp":
 		return channel.Split(' '), ' ', true
+	case "splitff": // terminators outside ASCII: bytes, not characters
+		return channel.Split(0xff), 0xff, true
+	case "split80":
+		return channel.Split(0x80), 0x80, true
+	case "splitc2":
+		return channel.Split(0xc2), 0xc2, true
 	case "hdr":
 		return channel.Header(""), 0, false
 	case "hdrbin":
@@ -431,7 +437,7 @@ func enumAllCuts(env engine.Env, yield func(Case) bool) {
 		return out
 	}
 	var cases []Case
-	for _, f := range []string{"line", "split1e", "split00", "splitsp"} {
+	for _, f := range []string{"line", "split1e", "split00", "splitsp", "splitff", "split80", "splitc2"} {
 		cases = append(cases,
 			Case{Framing: f, Records: lits("ab", "", "c")},
 			Case{Framing: f, Records: lits("", "", "")},
